@@ -31,6 +31,15 @@ def snap(m):
     return bytes(m)
 
 
+def mutable_copy(m):
+    """A separate, editable copy of a byte region."""
+    if isinstance(m, MSeq):
+        return MSeq(m.n, m.f, mutable=True)
+    if isinstance(m, SByteArray):
+        return m.copy()
+    return bytearray(m)
+
+
 def length(m):
     if isinstance(m, MSeq):
         return m.length()
